@@ -55,7 +55,7 @@ def run(ctx):
     from rules import C05 as _c05
     from ovsa.engine import Ctx as _Ctx
     sub = _Ctx("C05", prog, ctx.root, "quick")
-    _c05.run(sub)
+    getattr(_c05, "_run_base", _c05.run)(sub)
     n66 = 0
     for i_ in sub.instances:
         if i_["rule"] != "R5.1":
@@ -378,3 +378,7 @@ def run(ctx):
              "state channel (model_thread_connect evaluated on three threads)")
     from rules import round4
     round4.check_thread_tracks_select_own_state(ctx, "R6.9")
+    ctx.rule("R6.10", "the idle default of a CPU: the value a CPU's idle track shows without a unique running thread is "
+             "the state labelled Resting in nOS-V and Nanos6 alike, not the Progressing a thread starts with")
+    from rules import round5
+    round5.check_idle_default(ctx, "R6.10")
